@@ -49,6 +49,15 @@ pub fn write_const_fn(addr: u64, id: u32) {
     unsafe { std::ptr::copy_nonoverlapping(code.as_ptr(), addr as *mut u8, 6) };
 }
 
+/// `jmp dest` (5 bytes) followed by int3 padding at `addr`: a tail-call forwarder.
+pub fn write_jmp_fn(addr: u64, dest: u64) {
+    let rel = (dest as i64 - (addr as i64 + 5)) as i32;
+    let mut code = [0xCCu8; 6];
+    code[0] = 0xE9;
+    code[1..5].copy_from_slice(&rel.to_le_bytes());
+    unsafe { std::ptr::copy_nonoverlapping(code.as_ptr(), addr as *mut u8, 6) };
+}
+
 pub fn call_u32(addr: u64) -> u32 {
     let f: extern "C" fn() -> u32 = unsafe { std::mem::transmute(addr as usize) };
     std::hint::black_box(f)()
